@@ -5,9 +5,14 @@
            succ/pred, foreach_fwd/foreach_rev (as index lists).
    Part 2: the abstract side: history = list of pairs (oldest first), the dense BFGS inverse-Hessian
            operator H by the BFGS recursion, the documented initial scaling.
-   Encoding of NaN<config_t>: apply_masked marks pairs that are invalid on J by storing a NaN in ρ(i).
-   Over R there is no NaN, so the stored ρ is an `option T`: None = "NaN mark".  Reading a mark as a
-   number gives 0/0 (NaN at binary64).  std::pow is a section variable (libm). *)
+   Encoding of NaN<config_t>: apply_masked marks pairs that are invalid on J by storing a NaN in the
+   workspace α(i) (the stored ρ(i) is never written by apply_masked: the J-restricted ρ is a local,
+   recomputed in the second loop).  Over R there is no NaN, so the mark is an explicit bool `sl_skip` of
+   the slot: "α(i) holds the NaN<config_t> mark"; every ordinary assignment of α(i) (first loop of apply
+   and of apply_masked) clears it.  The second masked loop tests isnan(α(i)): `sl_skip || nisnan α`, so a
+   genuine NaN α at binary64 is skipped exactly as in the code.
+   The stored ρ keeps the type `option T` (None read as 0/0); no operation produces None any more.
+   std::pow is a section variable (libm). *)
 From Coq Require Import List ZArith Bool Arith.
 From Alpaqa Require Import Num Vec.
 Import ListNotations.
@@ -41,13 +46,13 @@ Section Lbfgs.
     else true.
 
   (* ---------------------------------------------------------------- circular buffer *)
-  Record slot := { sl_s : list T; sl_y : list T; sl_ρ : option T; sl_α : T }.
+  Record slot := { sl_s : list T; sl_y : list T; sl_ρ : option T; sl_α : T; sl_skip : bool }.
   Record state := { st_n : nat; st_idx : nat; st_full : bool; st_slots : list slot }.
 
   Definition nan : T := n0 / n0.
   Definition ρval (o : option T) : T := match o with Some r => r | None => nan end.
 
-  Definition slot0 (n : nat) : slot := {| sl_s := repeat n0 n; sl_y := repeat n0 n; sl_ρ := Some n0; sl_α := n0 |}.
+  Definition slot0 (n : nat) : slot := {| sl_s := repeat n0 n; sl_y := repeat n0 n; sl_ρ := Some n0; sl_α := n0; sl_skip := false |}.
   Definition history (st : state) : nat := length (st_slots st).
   Definition get (st : state) (i : nat) : slot := nth i (st_slots st) (slot0 0).
 
@@ -59,10 +64,12 @@ Section Lbfgs.
     end.
   Definition set_slot (st : state) (i : nat) (sl : slot) : state :=
     {| st_n := st_n st; st_idx := st_idx st; st_full := st_full st; st_slots := upd (st_slots st) i sl |}.
+  (* α(i) = a  (an ordinary value: clears the mark) *)
   Definition set_α (st : state) (i : nat) (a : T) : state :=
-    let sl := get st i in set_slot st i {| sl_s := sl_s sl; sl_y := sl_y sl; sl_ρ := sl_ρ sl; sl_α := a |}.
-  Definition set_ρ (st : state) (i : nat) (r : option T) : state :=
-    let sl := get st i in set_slot st i {| sl_s := sl_s sl; sl_y := sl_y sl; sl_ρ := r; sl_α := sl_α sl |}.
+    let sl := get st i in set_slot st i {| sl_s := sl_s sl; sl_y := sl_y sl; sl_ρ := sl_ρ sl; sl_α := a; sl_skip := false |}.
+  (* α(i) = NaN<config_t>  (the exclusion mark of apply_masked) *)
+  Definition set_mark (st : state) (i : nat) : state :=
+    let sl := get st i in set_slot st i {| sl_s := sl_s sl; sl_y := sl_y sl; sl_ρ := sl_ρ sl; sl_α := nan; sl_skip := true |}.
 
   Definition succ (st : state) (i : nat) : nat := if (S i <? history st)%nat then S i else 0%nat.
   Definition pred (st : state) (i : nat) : nat := match i with O => history st - 1 | S i' => i' end.
@@ -88,7 +95,7 @@ Section Lbfgs.
     if negb forced && negb (update_valid P yts (vsqnorm s) pp) then (false, st)
     else
       let i := st_idx st in
-      let st1 := set_slot st i {| sl_s := s; sl_y := y; sl_ρ := Some ρ; sl_α := sl_α (get st i) |} in
+      let st1 := set_slot st i {| sl_s := s; sl_y := y; sl_ρ := Some ρ; sl_α := sl_α (get st i); sl_skip := sl_skip (get st i) |} in
       let i' := succ st i in
       (true, {| st_n := st_n st; st_idx := i'; st_full := st_full st || (i' =? 0)%nat; st_slots := st_slots st1 |}).
 
@@ -160,24 +167,26 @@ Section Lbfgs.
           let sl := get st i in
           let yts := dotJ (sl_s sl) (sl_y sl) in
           let sts := dotJ (sl_s sl) (sl_s sl) in
-          let ρ := n1 / yts in
-          if negb (update_valid P yts sts n0) then mrev_loop l' (set_ρ st i None) q γ
+          let ρJ := n1 / yts in                                   (* local; the stored ρ(i) is not written *)
+          if negb (update_valid P yts sts n0) then mrev_loop l' (set_mark st i) q γ
           else
-            let α := ρ * dotJ (sl_s sl) q in
-            let st1 := set_α (set_ρ st i (Some ρ)) i α in
+            let α := ρJ * dotJ (sl_s sl) q in
+            let st1 := set_α st i α in
             let q1 := axmyJ α (sl_y sl) q in
-            let γ1 := if γ <? n0 then n1 / (ρ * dotJ (sl_y sl) (sl_y sl)) else γ in
+            let γ1 := if γ <? n0 then n1 / (ρJ * dotJ (sl_y sl) (sl_y sl)) else γ in
             mrev_loop l' st1 q1 γ1
       end.
-    Definition ρ_is_nan (o : option T) : bool := match o with None => true | Some r => nisnan r end.
+    (* std::isnan(α(i)) *)
+    Definition α_is_nan (sl : slot) : bool := sl_skip sl || nisnan (sl_α sl).
     Fixpoint mfwd_loop (l : list nat) (st : state) (q : list T) : list T :=
       match l with
       | [] => q
       | i :: l' =>
           let sl := get st i in
-          if ρ_is_nan (sl_ρ sl) then mfwd_loop l' st q
+          if α_is_nan sl then mfwd_loop l' st q
           else
-            let β := ρval (sl_ρ sl) * dotJ (sl_y sl) q in
+            let ρJ := n1 / dotJ (sl_s sl) (sl_y sl) in
+            let β := ρJ * dotJ (sl_y sl) q in
             mfwd_loop l' st (axmyJ (β - sl_α sl) (sl_s sl) q)
       end.
   End Masked.
@@ -199,7 +208,7 @@ Section Lbfgs.
   (* scale_y *)
   Definition scale_slot (f : T) (sl : slot) : slot :=
     {| sl_s := sl_s sl; sl_y := map (fun x => x * f) (sl_y sl);
-       sl_ρ := option_map (fun r => r * (n1 / f)) (sl_ρ sl); sl_α := sl_α sl |}.
+       sl_ρ := option_map (fun r => r * (n1 / f)) (sl_ρ sl); sl_α := sl_α sl; sl_skip := sl_skip sl |}.
   Fixpoint scale_first (k : nat) (f : T) (l : list slot) : list slot :=
     match k, l with
     | S k', sl :: l' => scale_slot f sl :: scale_first k' f l'
